@@ -176,6 +176,7 @@ PROPS = {
         'level_note': 'Tie: T2 regions AB AA (panic literal included).',
         'title': 'Around callbacks can veto before the transition and are never swallowed after',
         'modules': ['SMV.Props.C06', 'SMV.Props.RefineVeto'],
+        't5': True,
         'regions': ['AB', 'AA'],
         't3': ['assign'],
         'design_ref': 'DESIGN.md §7 C06',
@@ -304,3 +305,16 @@ def t3_relevant(pid, diff):
     if a[3] != b[3]:
         comps.add('obs')
     return any(pid in COMPONENT_PROPS.get(c, set()) for c in comps)
+
+
+# which rows of the core table (T5) a property reads
+T5_ROW_PROPS = {
+    'abort_guard_expr': {'C06', 'C12'}, 'abort_guard_ident': {'C06', 'C12'}, 'abort_with': {'C06', 'C12'},
+    'with_kind': {'C06', 'C12'}, 'from_guard_error': {'C09', 'C12'},
+    'new': {'C12'}, 'te_guard_failed': {'C12', 'C06'}, 'te_invalid': {'C12', 'C06'},
+    'dyn_invalid': {'C12'}, 'dyn_guard': {'C12'}, 'dyn_action': {'C12'}, 'dyn_wrong': {'C12'},
+}
+
+def t5_relevant(pid, row):
+    f = (row or '').split(' ', 1)[0]
+    return pid in T5_ROW_PROPS.get(f, {pid})
